@@ -56,6 +56,16 @@ func registerIntrinsics(m *Machine) {
 	in["internal/bytealg.Index"] = func(m *Machine, fr *frame, a []value) value {
 		return m.indexString(valuesToBytes(a[0].([]value)), valuesToBytes(a[1].([]value)))
 	}
+	// substring search as one term (the library's Rabin-Karp / brute-force loops branch on
+	// hashes of symbolic bytes)
+	strIndex := func(m *Machine, fr *frame, a []value) value {
+		return m.indexString(m.strBytes(a[0].(Str)), m.strBytes(a[1].(Str)))
+	}
+	in["internal/stringslite.Index"] = strIndex
+	in["strings.Index"] = strIndex
+	in["bytes.Index"] = func(m *Machine, fr *frame, a []value) value {
+		return m.indexString(valuesToBytes(a[0].([]value)), valuesToBytes(a[1].([]value)))
+	}
 	in["internal/bytealg.IndexString"] = func(m *Machine, fr *frame, a []value) value {
 		hay, needle := m.strBytes(a[0].(Str)), m.strBytes(a[1].(Str))
 		return m.indexString(hay, needle)
@@ -351,6 +361,41 @@ func registerIntrinsics(m *Machine) {
 		return tuple{res, iface{}}
 	}
 
+	// ---- sha256 as a hash.Hash: accumulate, then digest as above ----
+	type shaState struct{ data []*Term }
+	in["crypto/sha256.New"] = func(m *Machine, fr *frame, a []value) value {
+		sp := m.Prog.ImportedPackage("crypto/sha256")
+		var v value = opaque{"sha256", &shaState{}}
+		return iface{t: types.NewPointer(sp.Type("digest").Type()), v: &v}
+	}
+	in["(*crypto/sha256.digest).Write"] = func(m *Machine, fr *frame, a []value) value {
+		st := (*a[0].(*value)).(opaque).data.(*shaState)
+		p := valuesToBytes(a[1].([]value))
+		old := st.data
+		st.data = append(append([]*Term(nil), st.data...), p...)
+		if m.journaling {
+			m.journal = append(m.journal, undo{f: func() { st.data = old }})
+		}
+		return tuple{m.T.Const(64, uint64(len(p))), iface{}}
+	}
+	in["(*crypto/sha256.digest).Sum"] = func(m *Machine, fr *frame, a []value) value {
+		st := (*a[0].(*value)).(opaque).data.(*shaState)
+		sum := in["crypto/sha256.Sum256"](m, fr, []value{m.bytesToValues(st.data)}).(array)
+		out := append([]value(nil), a[1].([]value)...)
+		return append(out, []value(sum)...)
+	}
+	in["(*crypto/sha256.digest).Reset"] = func(m *Machine, fr *frame, a []value) value {
+		st := (*a[0].(*value)).(opaque).data.(*shaState)
+		old := st.data
+		st.data = nil
+		if m.journaling {
+			m.journal = append(m.journal, undo{f: func() { st.data = old }})
+		}
+		return nil
+	}
+	in["(*crypto/sha256.digest).Size"] = func(m *Machine, fr *frame, a []value) value { return m.T.Const(64, 32) }
+	in["(*crypto/sha256.digest).BlockSize"] = func(m *Machine, fr *frame, a []value) value { return m.T.Const(64, 64) }
+
 	// ---- environment stubs ----
 	in["os.Getenv"] = func(m *Machine, fr *frame, a []value) value { return Str{} }
 
@@ -482,7 +527,7 @@ func (m *Machine) indexString(hay, needle []*Term) *Term {
 	n := len(needle)
 	for i := len(hay) - n; i >= 0; i-- {
 		eq := m.T.True
-		for j := 0; j < n; j++ {
+		for j := 0; j < n && eq != m.T.False; j++ {
 			eq = m.T.And(eq, m.T.Eq(hay[i+j], needle[j]))
 		}
 		res = m.T.Ite(eq, m.T.Const(64, uint64(i)), res)
